@@ -124,6 +124,8 @@ pub fn solve_milp_lp_problem_with(
         )));
     }
     let mut microlp_vars = Vec::with_capacity(variables.len());
+    // (column, variable holding the negative part) of every split free variable
+    let mut negative_parts = Vec::new();
     let opt_type = match lp.optimization_type() {
         OptimizationType::Max => OptimizationDirection::Maximize,
         OptimizationType::Min => OptimizationDirection::Minimize,
@@ -134,6 +136,14 @@ pub fn solve_milp_lp_problem_with(
         let var_domain = domain.get(var).unwrap();
         let coeff = objective[i];
         let added_var = match var_domain.get_type() {
+            // microlp 0.5 mishandles a column without any finite bound (wrong Unbounded
+            // verdicts, internal errors, endless pivoting): a fully free variable is
+            // passed as the difference of two non-negative ones
+            VariableType::Real(min, max) if *min == f64::NEG_INFINITY && *max == f64::INFINITY => {
+                let negative_part = problem.add_var(-coeff, (0.0, f64::INFINITY));
+                negative_parts.push((i, negative_part));
+                problem.add_var(coeff, (0.0, f64::INFINITY))
+            }
             VariableType::Real(min, max) => problem.add_var(coeff, (*min, *max)),
             VariableType::Boolean => problem.add_binary_var(coeff),
             VariableType::IntegerRange(min, max) => problem.add_integer_var(coeff, (*min, *max)),
@@ -161,11 +171,12 @@ pub fn solve_milp_lp_problem_with(
                 });
             }
         };
-        let microlp_coeffs = microlp_vars
+        let mut microlp_coeffs = microlp_vars
             .iter()
             .zip(coeffs.iter())
             .map(|(v, c)| (*v, *c))
             .collect::<Vec<_>>();
+        microlp_coeffs.extend(negative_parts.iter().map(|(i, v)| (*v, -coeffs[*i])));
         problem.add_constraint(microlp_coeffs, microlp_comparison_type, rhs);
     }
 
@@ -188,11 +199,15 @@ pub fn solve_milp_lp_problem_with(
                 Status::Optimal => SolutionStatus::Optimal,
                 _ => SolutionStatus::Feasible,
             };
-            let assignment = microlp_vars
+            let mut values = microlp_vars.iter().map(|v| s.var_value(*v)).collect::<Vec<_>>();
+            for (i, v) in &negative_parts {
+                values[*i] -= s.var_value(*v);
+            }
+            let assignment = values
                 .iter()
                 .zip(variables)
-                .map(|(v, name)| {
-                    let value = s.var_value(*v);
+                .map(|(value, name)| {
+                    let value = *value;
                     let var_domain = domain.get(name).unwrap();
                     let value = match var_domain.get_type() {
                         VariableType::Real(_, _) | VariableType::NonNegativeReal(_, _) => {
@@ -207,8 +222,7 @@ pub fn solve_milp_lp_problem_with(
                     }
                 })
                 .collect();
-            let coeffs = microlp_vars.iter().map(|v| s.var_value(*v)).collect();
-            let constraints = make_constraints_map_from_assignment(lp, &coeffs);
+            let constraints = make_constraints_map_from_assignment(lp, &values);
             Ok(LpSolution::new(
                 assignment,
                 s.objective() + lp.objective_offset(),
